@@ -126,6 +126,9 @@ func renderNode(w io.Writer, node *html.Node, indent int) error {
 
 func renderNodeWithContext(ctx VueContext, w io.Writer, node *html.Node, indent int) error {
 	switch node.Type {
+	case html.DoctypeNode:
+		_, _ = w.Write([]byte("<!DOCTYPE " + node.Data + ">\n"))
+
 	case html.TextNode:
 		if strings.TrimSpace(node.Data) == "" {
 			return nil
